@@ -673,6 +673,19 @@ pub fn byte_domain(size: usize, full_limit: usize) -> Vec<Vec<u8>> {
     // every pattern when 256^size <= full_limit, else each byte over {0x00, 0x01, 0xFF}
     let mut out: Vec<Vec<u8>> = vec![vec![]];
     let full = (256usize).checked_pow(size as u32).map(|n| n <= full_limit).unwrap_or(false);
+    if size > 8 {
+        // large values: only the bytes at the ends and in the middle vary (over 00 / FF), the others are a fixed filler
+        let probes = [0, 1, size / 2, size - 2, size - 1];
+        let mut out = Vec::new();
+        for mask in 0..(1u32 << probes.len()) {
+            let mut v = vec![0x55u8; size];
+            for (k, p) in probes.iter().enumerate() {
+                v[*p] = if mask & (1 << k) != 0 { 0xFF } else { 0x00 };
+            }
+            out.push(v);
+        }
+        return out;
+    }
     for _ in 0..size {
         let mut next = Vec::new();
         for p in &out {
